@@ -56,7 +56,8 @@ pub fn plan_for(seed: u64, run: u64, files: &[(String, Vec<u8>)]) -> C17Plan {
         let (name, bytes) = files[run as usize].clone();
         KySrc::File { name, bytes }
     } else {
-        let mut s = gen_spec(&mut rng);
+        // one file in 400 has a trie with more than 2^16 entries (a few MB; crash points sampled)
+        let mut s = gen_spec(&mut rng, run % 400 == 399);
         if rng.chance(1, 6) {
             let n = rng.range(1, 12);
             s.trailing_garbage = (0..n).map(|_| rng.below(256) as u8).collect();
@@ -99,6 +100,16 @@ pub struct C17Stats {
     pub consumed: usize,
     pub accepted_identical_prefixes: u64,
     pub digest: u64,
+}
+
+/// Crash points to enumerate for a file of `l` bytes: all of them up to 6000 bytes, otherwise
+/// both ends, a window around every multiple of 8192 (capped) and about 300 strided offsets.
+pub fn offsets(l: usize) -> Vec<usize> {
+    if l <= 6000 {
+        return (0..l).collect();
+    }
+    let stride = (l / 300).max(61) | 1;
+    (0..l).filter(|&p| p < 64 || p + 64 >= l || p % stride == 0 || (l < 200_000 && ((p % 8192) < 2 || (p % 8192) > 8190))).collect()
 }
 
 fn convert<R: std::io::BufRead>(r: R) -> Result<Vec<u8>, String> {
@@ -173,6 +184,9 @@ pub fn execute(plan: &C17Plan) -> (Option<C17Violation>, C17Stats) {
     dg.bytes(&reference);
     if consumed < l {
         probe!("file-with-unread-trailing-bytes");
+    }
+    if l > 6000 {
+        probe!("large-file(crash points sampled, not exhaustive)");
     }
     if want_sc("K1") {
         let Some((got, _)) = MModel::from_bytes(&reference) else {
@@ -287,7 +301,7 @@ pub fn execute(plan: &C17Plan) -> (Option<C17Violation>, C17Stats) {
 
     // ---- K3: truncation at every offset ----------------------------------------------------------
     if want_sc("K3") {
-        for p in 0..l {
+        for p in offsets(l) {
             if !want("K3", p) {
                 continue;
             }
@@ -341,7 +355,7 @@ pub fn execute(plan: &C17Plan) -> (Option<C17Violation>, C17Stats) {
 
     // ---- K4: hard read error at every offset ---------------------------------------------------------
     if want_sc("K4") {
-        for p in 0..consumed {
+        for p in offsets(consumed) {
             if !want("K4", p) {
                 continue;
             }
